@@ -23,31 +23,122 @@ def tupcap(c):
             c[k] = [tuple(x) if isinstance(x, list) else x for x in c[k]]
     return tuple(c)
 
+
+# ---------------------------------------------------------------- admission decision cases
+def opt(x): return [] if x is None else [x]
+def copt(x, f=cN): return 'None' if x is None else '(Some %s)' % f(x)
+def cpairs(l): return clist([cpair(cN(a), cN(b)) for a, b in l])
+def crr(rr): return '(Build_rrcfg %s %s)' % (cbool(rr[0]), copt(rr[1]))
+def cgr(g): return 'None' if g is None else '(Some (Build_grcfg %s %s %s))' % (cN(g[0]), cbool(g[1]), clist([cN(f) for f in g[2]]))
+def cllgr(l): return 'None' if l is None else '(Some %s)' % cpairs(l)
+def caddr(a): return addr_to_coq((a[0], a[1]))
+def crole(r): return 'RActive' if r == 0 else 'RPassive'
+
+def group_to_val(g):
+    return [g['as'], [net_to_val(n) for n in g['prefixes']], int(g['rs']), opt(g['hold']), g['local_asn'], int(g['passive']),
+            [int(g['rr'][0]), opt(g['rr'][1])], opt(g['multihop']), opt(g['ttlsec']), [list(x) for x in g['families']],
+            [list(x) for x in g['send_max']], [] if g['gr'] is None else [[g['gr'][0], int(g['gr'][1]), list(g['gr'][2])]],
+            [] if g['llgr'] is None else [[list(x) for x in g['llgr']]]]
+
+def group_to_coq(g):
+    return '(Build_group %s %s %s %s %s %s %s %s %s %s %s %s %s)' % (
+        cN(g['as']), clist([net_to_coq(n) for n in g['prefixes']]), cbool(g['rs']), copt(g['hold']), cN(g['local_asn']),
+        cbool(g['passive']), crr(g['rr']), copt(g['multihop']), copt(g['ttlsec']), cpairs(g['families']), cpairs(g['send_max']),
+        cgr(g['gr']), cllgr(g['llgr']))
+
+def params_to_val(p):
+    return [p['expected'], p['local_asn'], int(p['passive']), int(p['rs']), [int(p['rr'][0]), opt(p['rr'][1])], int(p['delete']),
+            int(p['admin_down']), p['hold'], opt(p['multihop']), opt(p['ttlsec']), [list(x) for x in p['families']],
+            [list(x) for x in p['send_max']], [list(x) for x in p['prefix_limits']],
+            [] if p['gr'] is None else [[p['gr'][0], int(p['gr'][1]), list(p['gr'][2])]],
+            [] if p['llgr'] is None else [[list(x) for x in p['llgr']]]]
+
+def params_to_coq(p):
+    return '(Build_params %s %s %s %s %s %s %s %s %s %s %s %s %s %s %s)' % (
+        cN(p['expected']), cN(p['local_asn']), cbool(p['passive']), cbool(p['rs']), crr(p['rr']), cbool(p['delete']),
+        cbool(p['admin_down']), cN(p['hold']), copt(p['multihop']), copt(p['ttlsec']), cpairs(p['families']), cpairs(p['send_max']),
+        cpairs(p['prefix_limits']), cgr(p['gr']), cllgr(p['llgr']))
+
+def op_to_val(o):
+    return [{'connect': 0, 'disconnect': 1, 'admin': 2, 'disable': 3, 'enable': 4, 'delete': 5, 'delrace': 6}[o[0]], addr_to_val(o[1]), int(o[2])]
+
+def op_to_coq(o):
+    if o[0] == 'connect': return '(OConnect %s %s)' % (caddr(o[1]), crole(o[2]))
+    if o[0] == 'disconnect': return '(ODisconnect %s %s)' % (caddr(o[1]), crole(o[2]))
+    if o[0] == 'disable': return '(ODisable %s)' % caddr(o[1])
+    if o[0] == 'enable': return '(OEnable %s)' % caddr(o[1])
+    if o[0] == 'delete': return '(ODelete %s)' % caddr(o[1])
+    if o[0] == 'delrace': return '(ODeleteReconnect %s %s)' % (caddr(o[1]), crole(o[2]))
+    return '(OAdmin %s %s)' % (caddr(o[1]), cbool(o[2]))
+
+def acc_to_val(c):
+    return [c['asn'], c['rid'], [] if c['confed'] is None else [[c['confed'][0], list(c['confed'][1])]], int(c['restarting']),
+            [group_to_val(g) for g in c['groups']],
+            [[addr_to_val(st['addr']), params_to_val(st['params']), opt(st['group'])] for st in c['statics']],
+            [op_to_val(o) for o in c['ops']]]
+
+def acc_to_coq(c, order):
+    confed = 'None' if c['confed'] is None else '(Some (%s, %s))' % (cN(c['confed'][0]), clist([cN(m) for m in c['confed'][1]]))
+    statics = clist(['(%s, %s, %s)' % (caddr(st['addr']), params_to_coq(st['params']),
+                                       'None' if st['group'] is None else '(Some %d%%nat)' % st['group']) for st in c['statics']])
+    return 'run_accept_case %s %s %s %s %s %s %s %s' % (
+        cN(c['asn']), cN(c['rid']), confed, cbool(c['restarting']), clist([group_to_coq(g) for g in c['groups']]),
+        clist(['%d%%nat' % k for k in order]), statics, clist([op_to_coq(o) for o in c['ops']]))
+
+def sort_caps(caps):
+    """capability lists modulo the iteration order of the `families` hash map"""
+    out = []
+    for c in caps:
+        c = list(c)
+        if c[0] in (69, 5): c[1] = sorted(c[1])
+        out.append(c)
+    return sorted(out, key=lambda x: json.dumps(x))
+
+def canon_peer_row(r):
+    r = list(r); r[6] = sort_caps(r[6]); r[10] = sorted(r[10]); r[11] = sorted(r[11]); return r
+
+def canon_session(sv):
+    sv = list(sv); sv[3] = sort_caps(sv[3]); sv[5] = sorted(sv[5]); return sv
+
+def canon_acc(obs):
+    if obs == [-1]: return obs
+    if obs and obs[0] and obs[0][0] == -7: obs = obs[1:]
+    out = [sorted([canon_peer_row(r) for r in obs[0]], key=lambda r: r[0])]
+    for res, rows in obs[1:]:
+        out.append([[canon_session(x) for x in res], sorted([canon_peer_row(r) for r in rows], key=lambda r: r[0])])
+    return out
+
 class Prop:
     pid = 'C16'
     props_file = 'Props/C16.v'
-    required_theorems = ['negotiate_mirror', 'family_in_force_iff_both', 'flags_in_force_iff_both', 'graceful_restart_mirror',
-                         'send_max_without_addpath_tx_refuted', 'llgr_mirror_refuted']
+    required_theorems = ['negotiate_mirror', 'family_in_force_iff_both', 'flags_in_force_iff_both', 'graceful_restart_mirror', 'send_max_iff_addpath_tx', 'llgr_mirror', 'contains_eq_bit_prefix', 'contains_beyond_width', 'send_max_any_filter_refuted', 'llgr_all_entries_refuted', 'accept_iff_permitted', 'accept_only_if_text', 'session_fields_from_config', 'dynamic_peer_removed', 'dynamic_peers_have_connections', 'peer_group_inheritance', 'local_cap_from_config', 'admission_independent_of_group_order', 'overlapping_groups_order_dependent', 'stale_task_removes_live_dynamic_peer_refuted']
     correspondence_name = ('Model/Negotiate.v vs packet/src/bgp.rs IpNet::contains, PeerCodec::negotiate (harness/hx-neg) and '
-                           'daemon fsm.rs effective send-max, event/mod.rs negotiate_gr/negotiate_llgr (harness/daemon/event_hx.rs verif_neg_cases)')
+                           'daemon fsm.rs effective send-max, event/mod.rs negotiate_gr/negotiate_llgr (harness/daemon/event_hx.rs verif_neg_cases); '
+                           'Model/Accept.v vs event/mod.rs accept_connection, Global::add_peer, PeerSession::run bookkeeping and event/peer.rs '
+                           'PeerParams::{apply_peer_group, build, build_local_cap} (harness/daemon/event_accept_hx.rs verif_accept_cases, real loopback connections)')
     rule = ('cases = (prefix, address) pairs around every mask boundary, IPv4 and IPv6, canonical and with host bits set, valid and oversized masks; '
             'pairs of capability lists over 4 families with add-path modes 0-7, duplicates, unknown capabilities, GR/LLGR lists; '
             'non-trivial = address shares at least mask-1 leading bits with the prefix, or some family is negotiated / GR / LLGR is in force; distinct by full input')
     exhaustive = {'quick': False, 'thorough': False}
-    trusted_base = ['PeerCodec.extended_nexthop is a private field and is not observed (modelled, proved mirror-symmetric, not tied to the code)',
-                    'accept_connection, PeerParams::build / build_local_cap / apply_peer_group, add_peer and delete-on-disconnect are not modelled (C16 is partial: negotiation and prefix containment only)']
+    trusted_base = ['PeerCodec.extended_nexthop is a private field and is not observed (modelled, not tied to the code)',
+                    'admission: the iteration order of Global.peer_group is reported by the harness and given to the model as an input (theorems hold for every order); '
+                    'capability lists are compared modulo the iteration order of the families hash map; enable/disable is the admin_down flag written directly '
+                    '(disable_peer/enable_peer/delete_peer of grpc.rs are not driven); GTSM min-TTL, MD5, BFD registration, export-policy resolution and '
+                    'active connects are not modelled; PeerSession::run is driven only to its end-of-connection bookkeeping (client closes the socket)']
     assumptions = ['capability lists are what the OPEN parser hands to the FSM (any order, duplicates allowed)',
                    'prefix masks above the address width are outside the property (FromStr rejects them); contains panics there']
 
     # ---- rendering
     def case_to_val(self, c):
         k = c['kind']
+        if k == 'acc': return acc_to_val(c)
         if k == 'net': return [0, net_to_val(c['net']), addr_to_val(c['addr'])]
         if k == 'neg': return [1, caps_to_val(c['l']), caps_to_val(c['r']), list(c['fams'])]
         return [caps_to_val(c['l']), caps_to_val(c['r']), [list(p) for p in c['smax']], list(c['fams'])]
 
-    def case_to_coq(self, c):
+    def case_to_coq(self, c, order=None):
         k = c['kind']
+        if k == 'acc': return acc_to_coq(c, order if order is not None else list(range(len(c['groups']))))
         if k == 'net': return 'v_net_case %s %s' % (net_to_coq(c['net']), addr_to_coq(c['addr']))
         fams = clist([cN(f) for f in c['fams']])
         if k == 'neg': return 'run_neg_case %s %s %s' % (caps_to_coq(c['l']), caps_to_coq(c['r']), fams)
@@ -59,6 +150,8 @@ class Prop:
 
     def case_from_json(self, j):
         c = dict(j)
+        if c['kind'] == 'acc':
+            return json.loads(json.dumps(j))
         if c['kind'] == 'net':
             c['net'] = (j['net'][0], list(j['net'][1]), j['net'][2]); c['addr'] = (j['addr'][0], list(j['addr'][1]))
         else:
@@ -125,8 +218,64 @@ class Prop:
         rng.shuffle(caps)
         return caps
 
+    # ---- admission decision: configurations and operation sequences
+    ADDRS = [(4, [127, 0, 0, 2]), (4, [127, 0, 1, 5]), (4, [127, 0, 18, 5]), (4, [127, 1, 2, 3]), (4, [127, 64, 0, 1]),
+             (6, [0] * 15 + [1])]
+    NETS = [(4, [127, 0, 0, 0], 16), (4, [127, 0, 16, 0], 20), (4, [127, 0, 18, 0], 20), (4, [127, 0, 1, 5], 32),
+            (4, [127, 0, 0, 0], 8), (4, [0, 0, 0, 0], 0), (4, [127, 1, 0, 0], 15), (4, [127, 0, 1, 4], 31),
+            (4, [127, 64, 0, 0], 10), (4, [126, 0, 0, 0], 7), (4, [10, 0, 0, 0], 8),
+            (6, [0] * 16, 0), (6, [0] * 15 + [1], 128), (6, [0] * 15 + [3], 127), (6, [0x20, 1] + [0] * 14, 32)]
+    FAMSETS = [[], [(IPV4, 0)], [(IPV4, 3), (IPV6, 1)], [(IPV4_VPN, 2), (IPV4, 0)], [(IPV6, 0)], [(IPV4, 1), (IPV4_LU, 3)]]
+
+    def gen_common(self, rng):
+        fams = rng.choice(self.FAMSETS)
+        return dict(
+            rr=(rng.random() < 0.3, rng.choice([None, None, 0x0a000001])),
+            multihop=rng.choice([None, None, 5]), ttlsec=rng.choice([None, None, None, 10]),
+            families=fams, send_max=[(f, rng.choice([1, 4])) for f, m in fams if m & 2 and rng.random() < 0.8],
+            gr=rng.choice([None, None, (120, True, [f for f, _ in fams] or [IPV4]), (90, False, [IPV4])]),
+            llgr=rng.choice([None, None, [(IPV4, 60)]]))
+
+    def gen_acc(self, rng):
+        confed = rng.choice([None, None, (65100, [65001, 65002])])
+        groups = []
+        for _ in range(rng.choice([0, 1, 2, 2, 3, 4])):
+            g = self.gen_common(rng)
+            g.update({'as': rng.choice([0, 65000, 65001, 65009]), 'local_asn': rng.choice([0, 0, 65000, 64999]),
+                      'prefixes': [rng.choice(self.NETS) for _ in range(rng.choice([0, 1, 1, 2, 3]))],
+                      'rs': rng.random() < 0.2, 'hold': rng.choice([None, 30, 90]), 'passive': rng.random() < 0.5})
+            groups.append(g)
+        statics = []
+        for a in rng.sample(self.ADDRS, rng.choice([0, 1, 2, 3])):
+            p = self.gen_common(rng)
+            p.update({'expected': rng.choice([0, 65000, 65001, 65009]), 'local_asn': rng.choice([0, 0, 65000, 64999]),
+                      'passive': rng.random() < 0.7, 'rs': rng.random() < 0.2, 'delete': rng.random() < 0.1,
+                      'admin_down': rng.random() < 0.2, 'hold': rng.choice([180, 180, 30, 3]),
+                      'prefix_limits': rng.choice([[], [(IPV4, 100)], [(IPV4, 5), (IPV6, 7)]])})
+            statics.append(dict(addr=a, params=p, group=(rng.randrange(len(groups)) if groups and rng.random() < 0.5 else None)))
+        if statics and rng.random() < 0.1:
+            statics.append(dict(statics[0]))      # add_peer of an existing address
+        ops = []
+        for _ in range(rng.randint(2, 10)):
+            x = rng.random()
+            a = rng.choice(self.ADDRS)
+            if x < 0.6: ops.append(('connect', a, rng.choice([0, 1, 1])))
+            elif x < 0.85:
+                prev = [o for o in ops if o[0] == 'connect']
+                o = rng.choice(prev) if prev and rng.random() < 0.8 else ('connect', a, rng.choice([0, 1]))
+                ops.append(('disconnect', o[1], o[2]))
+            elif x < 0.89: ops.append(('admin', a, rng.random() < 0.6))
+            elif x < 0.94: ops.append(('disable', a, 0))
+            elif x < 0.97: ops.append(('enable', a, 0))
+            elif x < 0.985 or a[0] == 6: ops.append(('delete', a, 0))
+            else: ops.append(('delrace', a, rng.choice([0, 1])))
+        return dict(kind='acc', asn=65000, rid=0x01000001, confed=confed, restarting=rng.random() < 0.15,
+                    groups=groups, statics=statics, ops=[list(o) for o in ops])
+
     def gen_cases(self, rng, tier):
         cases = []
+        for _ in range(400 if tier == 'quick' else 4000):
+            cases.append(json.loads(json.dumps(self.gen_acc(rng))))
         reps = 2 if tier == 'quick' else 12
         for _ in range(reps):
             for mask in list(range(0, 33)) + [33, 40, 255]:
@@ -158,13 +307,28 @@ class Prop:
             res, err = rustrun.daemon_test('C16d', 'event::verif_hx::verif_neg_cases', [self.case_to_val(c) for _, c in b])
             if res is None: return None, err
             for (k, _), o in zip(b, res): out[k] = o
+        d = [(k, c) for k, c in enumerate(cases) if c['kind'] == 'acc']
+        self._orders = {}
+        if d:
+            res, err = rustrun.daemon_test('C16a', 'event::verif_hx::accept_hx::verif_accept_cases',
+                                           [self.case_to_val(c) for _, c in d])
+            if res is None: return None, err
+            for (k, c), o in zip(d, res):
+                out[k] = o
+                # the iteration order of Global.peer_group, an input the model leaves open
+                if o != [-1] and o and o[0] and o[0][0] == -7:
+                    self._orders[k] = o[0][1:]
         return out, ''
 
     def run_model(self, cases, tier):
-        pre = 'From RB Require Import Base.Val Model.Caps Model.Fsm Model.Negotiate.\nOpen Scope N_scope.'
-        return coqrun.eval_terms('C16', pre, [self.case_to_coq(c) for c in cases])
+        pre = 'From RB Require Import Base.Val Model.Caps Model.Fsm Model.Negotiate Model.Accept.\nOpen Scope N_scope.'
+        orders = getattr(self, '_orders', {})
+        return coqrun.eval_terms('C16', pre, [self.case_to_coq(c, orders.get(k)) if c['kind'] == 'acc' else self.case_to_coq(c)
+                                              for k, c in enumerate(cases)])
 
     def canon(self, case, obs):
+        if case['kind'] == 'acc':
+            return canon_acc(obs)
         return obs
 
     # ---- Spec oracle (the property text on the implementation's observations)
@@ -177,6 +341,8 @@ class Prop:
 
     def oracle(self, c, obs):
         k = c['kind']
+        if k == 'acc':
+            return self.oracle_acc(c, obs)
         if obs == [-1] and k != 'net':
             return 'panic'
         if k == 'net':
@@ -218,9 +384,12 @@ class Prop:
             if fl != want: return 'graceful restart in force for %s, both advertised %s' % (sorted(fl), sorted(want))
         sl = set(f for f, _ in ll[0]) if ll else set(); sr = set(f for f, _ in lr[0]) if lr else set()
         if sl != sr: return 'LLGR families differ between the two ends: %s vs %s' % (sorted(sl), sorted(sr))
+        cfg = dict(c['smax'])
         for f, mx, tx in em:
             if mx > 1 and not tx:
                 return 'family %d: more than one path will be sent (max %d) although add-path send is not in force' % (f, mx)
+            if tx and mx != cfg.get(f, 1):
+                return 'family %d: add-path send is in force but the configured send-max %d is not used (max %d)' % (f, cfg.get(f, 1), mx)
         return None
 
     def in_known_class(self, kf, c, obs, why):
@@ -245,7 +414,189 @@ class Prop:
             return dup(c['l']) or dup(c['r'])
         return False
 
+    # ---- the property text applied to the admission observations
+    @staticmethod
+    def _inside(net, addr):
+        return net[0] == addr[0] and bits_of(net[1])[:net[2]] == bits_of(addr[1])[:net[2]]
+
+    @staticmethod
+    def _expected_caps(addr, local_asn, families, gr, llgr):
+        """capabilities the text demands for a neighbour: its families (default: the address family),
+        add-path where configured, extended next hop for IPv4 families over IPv6, GR/LLGR as configured,
+        4-octet AS and extended message always"""
+        v6 = addr[0] == 6
+        caps = []
+        if not families:
+            caps.append([1, IPV6 if v6 else IPV4])
+        else:
+            caps += [[1, f] for f, _ in families]
+            ap = sorted([f, m] for f, m in families if m > 0)
+            if ap: caps.append([69, ap])
+            if v6:
+                enh = sorted([f, 2] for f, _ in families if f >> 16 == 1 and f != ((1 << 16) | 73))
+                if enh: caps.append([5, enh])
+        if gr is not None: caps.append([64, 4 if gr[1] else 0, gr[0], [[f, 0] for f in gr[2]]])
+        if llgr is not None: caps.append([71, [[f, 0, t] for f, t in llgr]])
+        caps += [[65, local_asn], [6]]
+        return sort_caps(caps)
+
+    @staticmethod
+    def _inherit(p, g):
+        """a neighbour's own settings, completed from its peer group where it has none"""
+        q = dict(p)
+        if q['expected'] == 0 and g['as'] != 0: q['expected'] = g['as']
+        if q['local_asn'] == 0 and g['local_asn'] != 0: q['local_asn'] = g['local_asn']
+        if q['hold'] == 180 and g['hold'] is not None: q['hold'] = g['hold']
+        if q['multihop'] is None: q['multihop'] = g['multihop']
+        if q['ttlsec'] is None: q['ttlsec'] = g['ttlsec']
+        if not q['families']: q['families'], q['send_max'] = g['families'], g['send_max']
+        if q['gr'] is None: q['gr'] = g['gr']
+        if q['llgr'] is None: q['llgr'] = g['llgr']
+        q['passive'] = q['passive'] or g['passive']
+        q['rs'] = q['rs'] or g['rs']
+        if not q['rr'][0] and g['rr'][0]: q['rr'] = g['rr']
+        return q
+
+    def _row_of(self, c, addr, q):
+        """the table row the text demands for a neighbour with settings q"""
+        own = q['local_asn'] or c['asn']
+        la = own
+        internal = q['expected'] == own
+        if c['confed'] is not None and not internal and q['expected'] not in c['confed'][1]:
+            la = c['confed'][0]          # RFC 5065: peers outside the confederation see its identifier
+        return dict(addr=list(addr), expected=q['expected'], local_asn=la, passive=int(q['passive']), delete=int(q['delete']),
+                    hold=q['hold'], caps=self._expected_caps(addr, la, q['families'], q['gr'], q['llgr']), rs=int(q['rs']),
+                    rrc=int(q['rr'][0]), cluster=opt(q['rr'][1]), limits=sorted([list(x) for x in q['prefix_limits']]),
+                    smax=sorted([list(x) for x in q['send_max']]), multihop=q['multihop'], ttlsec=q['ttlsec'])
+
+    @staticmethod
+    def _row_dict(r):
+        r = canon_peer_row(r)
+        return dict(addr=r[0], expected=r[1], local_asn=r[2], passive=r[3], delete=r[4], hold=r[5], caps=r[6], rs=r[7], rrc=r[8],
+                    cluster=r[9], limits=r[10], smax=r[11], admin=r[12], ca=r[13], cp=r[14])
+
+    def _row_mismatch(self, want, got):
+        for k in ('expected', 'local_asn', 'passive', 'delete', 'hold', 'caps', 'rs', 'rrc', 'cluster', 'limits', 'smax'):
+            if want[k] != got[k]:
+                return '%s is %s, configured %s' % (k, got[k], want[k])
+        return None
+
+    def _session_mismatch(self, c, role, row, want, sv):
+        sv = canon_session(sv)
+        sdir, prole, lasn, caps, restarting, limits, rid, cluster, confed_id, ttl = sv
+        if sdir != role: return 'direction'
+        if lasn != row['local_asn'] or caps != row['caps'] or limits != row['limits']:
+            return 'session local AS / capabilities / prefix limits differ from the neighbour\'s'
+        if rid != c['rid'] or restarting != int(c['restarting']): return 'router id / restarting flag'
+        if confed_id != (c['confed'][0] if c['confed'] else 0): return 'confederation id'
+        members = c['confed'][1] if c['confed'] else []
+        own = row['local_asn']
+        if row['rs']: wrole = 1
+        elif own != 0 and row['expected'] == own: wrole = 3 if row['rrc'] else 2
+        elif row['expected'] in members: wrole = 4
+        else: wrole = 0
+        if prole != wrole: return 'role %d, configuration says %d' % (prole, wrole)
+        wcluster = [row['cluster'][0] if row['cluster'] else c['rid']] if wrole in (2, 3) else []
+        if cluster != wcluster: return 'cluster id %s, expected %s' % (cluster, wcluster)
+        if want is not None:
+            if want['ttlsec'] is not None: wttl = [255]
+            elif want['multihop'] is not None: wttl = [want['multihop']] if row['expected'] != row['local_asn'] else []
+            else: wttl = [1]
+            if ttl != wttl: return 'socket TTL %s, expected %s' % (ttl, wttl)
+        return None
+
+    def oracle_acc(self, c, obs):
+        if obs == [-1]:
+            return 'panic in accept_connection / add_peer / run'
+        obs = obs[1:] if obs and obs[0] and obs[0][0] == -7 else obs
+        # configured neighbours
+        want_static = {}
+        for st in c['statics']:
+            key = json.dumps(st['addr'])
+            if key in want_static: continue
+            q = self._inherit(st['params'], c['groups'][st['group']]) if st['group'] is not None else dict(st['params'])
+            want_static[key] = (self._row_of(c, st['addr'], q), q)
+        rows = {json.dumps(self._row_dict(r)['addr']): self._row_dict(r) for r in obs[0]}
+        if set(rows) != set(want_static): return 'configured neighbours %s, table has %s' % (sorted(want_static), sorted(rows))
+        for key, (want, q) in want_static.items():
+            m = self._row_mismatch(want, rows[key])
+            if m: return 'configured neighbour %s: %s' % (key, m)
+            if rows[key]['admin'] != int(q['admin_down']): return 'admin-down flag'
+        dyn = {}
+        for k, (o, (res, rws)) in enumerate(zip(c['ops'], obs[1:])):
+            kind, addr, arg = o
+            key = json.dumps(addr)
+            after = {json.dumps(self._row_dict(r)['addr']): self._row_dict(r) for r in rws}
+            before = rows
+            flag = 'ca' if arg == 0 else 'cp'
+            exp = {kk: dict(v) for kk, v in before.items()}
+            if kind == 'delrace':
+                # delete_peer, then a connection from the same address while the old tasks end
+                before = {kk: v for kk, v in before.items() if kk != key}
+                exp.pop(key, None); want_static.pop(key, None); dyn.pop(key, None)
+                kind = 'connect'
+            if kind == 'connect':
+                row = before.get(key)
+                if row is not None:
+                    permitted = not row['admin'] and not row[flag]
+                    cands = None
+                else:
+                    cands = [g for g in c['groups'] if any(self._inside(n, addr) for n in g['prefixes'])]
+                    permitted = bool(cands)
+                if bool(res) != permitted:
+                    return 'op %d: connection from %s %s although it is %s' % (
+                        k, addr[1], 'accepted' if res else 'dropped', 'permitted' if permitted else 'not permitted')
+                if res:
+                    got = after.get(key)
+                    if got is None or not got[flag]: return 'op %d: accepted connection not recorded' % k
+                    if row is not None:
+                        exp[key][flag] = 1
+                        want = dyn[key] if key in dyn else want_static.get(key, (None, None))[0]
+                    else:
+                        # a dynamic neighbour: the settings of a group whose prefix contains the address
+                        ok = None
+                        for g in cands:
+                            q = dict(expected=g['as'], local_asn=g['local_asn'], passive=g['passive'], rs=g['rs'], rr=g['rr'], delete=True,
+                                     hold=g['hold'] if g['hold'] is not None else 180, multihop=g['multihop'], ttlsec=g['ttlsec'],
+                                     families=g['families'], send_max=g['send_max'], prefix_limits=[], gr=g['gr'], llgr=g['llgr'])
+                            w = self._row_of(c, addr, q)
+                            if self._row_mismatch(w, got) is None: ok = w; break
+                        if ok is None:
+                            return 'op %d: dynamic neighbour %s does not carry the settings of a peer group that permits it' % (k, addr[1])
+                        if got['admin'] or got['ca'] + got['cp'] != 1: return 'op %d: dynamic neighbour flags' % k
+                        dyn[key] = ok
+                        want = ok
+                        exp[key] = got
+                    m = self._session_mismatch(c, arg, got, want, res[0])
+                    if m: return 'op %d: session for %s: %s' % (k, addr[1], m)
+            elif kind == 'disconnect':
+                row = before.get(key)
+                if row is not None and row[flag]:
+                    exp[key][flag] = 0
+                    if row['delete'] and not exp[key]['ca'] and not exp[key]['cp']:
+                        del exp[key]       # a dynamic neighbour's state disappears with its last connection
+            elif kind == 'admin':
+                if key in exp: exp[key]['admin'] = int(arg)
+            elif kind == 'enable':
+                if key in exp: exp[key]['admin'] = 0
+            elif kind == 'delete':
+                exp.pop(key, None); want_static.pop(key, None); dyn.pop(key, None)
+            elif kind == 'disable':
+                if key in exp and not exp[key]['admin']:
+                    had = exp[key]['ca'] or exp[key]['cp']
+                    exp[key].update(admin=1, ca=0, cp=0)      # its connections are torn down
+                    if had and exp[key]['delete']: del exp[key]
+            if key not in exp: dyn.pop(key, None)
+            if exp != after:
+                diff = sorted(set(exp) ^ set(after)) or [kk for kk in exp if exp[kk] != after[kk]]
+                return 'op %d (%s): neighbour table is not what the operation should leave (%s)' % (k, kind, diff[:2])
+            rows = after
+        return None
+
     def nontrivial_key(self, c, obs):
+        if c['kind'] == 'acc':
+            if obs != [-1] and any(o[0] for o in obs[2:]): return json.dumps(acc_to_val(c))
+            return None
         if c['kind'] == 'net':
             fam, pre, mask = c['net']; afam, addr = c['addr']
             m = max(min(mask, len(pre) * 8) - 1, 0)
@@ -259,6 +610,8 @@ class Prop:
 
     def classify(self, c, obs):
         tags = [c['kind']]
+        if c['kind'] == 'acc' and obs != [-1]:
+            if any(o[0] for o in obs[2:]): tags.append('accepted')
         if c['kind'] == 'net':
             tags.append('v%d' % c['net'][0])
             if obs == [1]: tags.append('contained')
